@@ -1,6 +1,7 @@
 CONSTANTS
  WalkerCapturesNext = TRUE
  EmptyBlockFlushes = TRUE
+ EmptyLooksAtChildren = TRUE
  InnerForNestRoots = TRUE
 INIT Init
 NEXT Next
